@@ -76,7 +76,7 @@ package fsnotify
 //@        (!enableRecurse ==> forall(k, uint32, has(ws.wd, k) ==> !ws.wd[k].recurse))
 //@ pred KInv(ws *watches) := forall(k, uint32, has(K, k) ==> has(ws.wd, k)) && forall(k, uint32, has(ws.wd, k) ==> has(K, k) || has(Pending, k)) &&
 //@        forall(k, uint32, !(has(K, k) && has(Pending, k)))
-//@ lockinv shared.mu (w *inotify) := TablesInv(w.watches)          [C04 C07 C12] "the two tables describe the same set of watches"
+//@ lockinv shared.mu (w *inotify) := TablesInv(w.watches)          [C01 C02 C04 C07 C08 C09 C12] "the two tables describe the same set of watches"
 //@   invariant KInv(w.watches)                                     [C12] "kernel watches and table entries are in step"
 
 //@ func (w *watches) removePath(path string) (wds []uint32, err error)
@@ -98,7 +98,7 @@ package fsnotify
 //@   let p = filepath.Clean(name)
 //@   let P0 = old(w.watches.path)
 //@   let W0 = old(w.watches.wd)
-//@   ensures TablesInv(w.watches)                                                                 [C04 C07 C12]
+//@   ensures TablesInv(w.watches)                                                                 [C01 C02 C04 C07 C08 C09 C12]
 //@   ensures modeA ==> KInv(w.watches)                                                            [C12]
 //@   ensures !has(P0, p) ==> errIs(err, ErrNonExistentWatch) && w.watches.wd == W0 && w.watches.path == P0   [C04 C07 C09] "Remove of an unlisted path: ErrNonExistentWatch, nothing changes"
 //@   ensures errIs(err, ErrNonExistentWatch) ==> !has(P0, p)                                      [C04 C10]
@@ -125,7 +125,7 @@ package fsnotify
 //@   let P0 = old(w.watches.path)
 //@   let W0 = old(w.watches.wd)
 //@   ensures held(shared.mu)
-//@   ensures TablesInv(w.watches)                                                                   [C04 C07 C12]
+//@   ensures TablesInv(w.watches)                                                                   [C01 C02 C04 C07 C08 C09 C12]
 //@   ensures KInv(w.watches)                                                                        [C12]
 //@   ensures (err != nil) <==> (lastWd == -1)
 //@   ensures err != nil ==> w.watches.wd == W0 && w.watches.path == P0                              [C04] "a failed Add leaves the set untouched"
